@@ -817,6 +817,12 @@ def _long_inputs(consider):
             consider(ts, " ".join(ts))
     for text in ("trueish", "falsePositive & alarm", "~truex | y", "truefalse", "falsey ^ truthy", "trueTRUE | FALSEfalse", "untrue & isfalse"):
         consider(tokenize(text), text)
+    # characters that only LOOK like the language's (no-break space, full-width letters and operators, ligatures, superscript letters): outside
+    # the language, and capitalised spellings of the constants, which are ordinary variable names
+    for text in ("a\u00a0&\u00a0b", "\uff41 & b", "a \uff06 b", "\u00aa", "\ufb01x ^ y", "p\u2003|\u2003q", "\uff5e p", "p \uff5c q", "\u00e9", "gr\u00f6\u00dfe | p", "\u03bb", "p\t& q", "p\n| q"):
+        consider(tokenize(text), text)
+    for text in ("True", "FALSE", "~False | True & x", "TRUE ^ true", "False", "tRuE & fAlSe"):
+        consider(tokenize(text), text)
     long_a, long_b, long_c = "engineTemperatureWithinNominalOperatingRange", "coolantPressureWithinNominalOperatingRange", "manualOverrideEngagedByOperator"
     for ts in ([long_a, "&", long_b, "^", long_c], [long_a, "^", long_b, "&", long_c], [long_a, "&", long_b, "|", long_c, "^", long_a], ["~", long_a, "&", "(", long_b, "|", long_c, ")"]):
         consider(ts, " ".join(ts))
